@@ -63,7 +63,14 @@ func (m *Migration) RemoveTable(tbName string) {
 	}
 
 	if m.Tables[id].Action == MigrateAddAction {
-		m.Tables[id].Action = MigrateNoAction
+		// created and dropped within the same history: forget the table
+		delete(m.tableIndexes, tbName)
+		m.Tables = append(m.Tables[:id], m.Tables[id+1:]...)
+		for k, v := range m.tableIndexes {
+			if v > id {
+				m.tableIndexes[k] = v - 1
+			}
+		}
 	} else {
 		m.Tables[id].Action = MigrateRemoveAction
 	}
